@@ -434,6 +434,16 @@ def _corpus():
                    "rows": [["x", "N1", {"v": 1}], ["x", "N2", {"v": 2}], ["N1", "N0", {"v": None}], ["N2", "N0", {"v": 4}],
                             ["N0", None, {"v": 9}]], "colorder": 0}, ("corpus", "dupleaf")))
     out.append(mk({"fn": "heap", "xs": list(range(1, 11))}, ("corpus",)))
+    # refusals, once per library and duplicate setting
+    amb = [["x", "a", {}], ["b", "a", {}], ["x", "b", {}], ["y", "x", {}]]           # x is a parent, under a and under b
+    noroot = [["b", "a", {}], ["c", "b", {}], ["a", "c", {}]]
+    tworoots = [["b", "a", {}], ["d", "c", {}], ["e", "d", {}]]
+    dupleafs = [["x", "a", {}], ["b", "a", {}], ["x", "b", {}]]                       # fine: x is a leaf twice
+    for lib in LIBS:
+        for dupok in (False, True):
+            for nm, rows in (("amb", amb), ("noroot", noroot), ("tworoots", tworoots), ("dupleafs", dupleafs)):
+                out.append(mk({"fn": "rel", "lib": lib, "dupok": dupok, "rows": [list(r) for r in rows], "colorder": 0},
+                              ("corpus", nm, "lib=" + lib)))
     return out
 
 
@@ -497,7 +507,21 @@ def shrink(case):
         yield mk(dict(d, nd=remove(nd, list(addr))), case.tags)
 
 
-NOT_READY = True
-LEVEL_TEXT = ""
-LEVEL_NOTE = ""
-TECHNIQUE = ""
+NOT_READY = False
+LEVEL_TEXT = ("proof: Lean 4 kernel-checked theorems about the executable models: relation_exact (rows = ANY permutation of "
+              "the edge list of a tree with pairwise different sibling names whose non-leaf names are carried by no other "
+              "node: accepted for both allow_duplicates settings, root = the unique root candidate, edges of the result = "
+              "the rows as a multiset, so the fuel rows+1 sufficed), relation_children_in_row_order (for EVERY accepted "
+              "input the children of each node are the rows naming it as parent, in row order, with the row's non-null "
+              "cells), root_candidates, relation_refused (no/several root candidates, repeated non-leaf child under different "
+              "parents => ValueError), nested_mirror and nested_accepted_iff (the result read back as a nested dict is the "
+              "input; accepted iff names non-empty and sibling names distinct), heap_store / heap_parent / heap_tree "
+              "(element i is the child of element (i-1)/2, left for odd i, right for even i, no other slot points to it; "
+              "the returned tree is the heap-shaped tree of the list)")
+LEVEL_NOTE = ("relation_exact is stated for edge lists without a null-parent root row (root rows are covered by "
+              "relation_children_in_row_order, root_candidates and the correspondence check); the float index expression "
+              "int((i+1)/2)-1 is modelled on natural numbers; pandas/polars are exercised through the real libraries by "
+              "the correspondence check (list / pandas / pandas dtype=object / polars), not proved; a null-parent root row "
+              "in a default-dtype pandas 3 frame is refused by the pinned code (environment incompatibility, excluded)")
+TECHNIQUE = ("machine-checked proof (Lean 4) on an executable model + differential correspondence check against the real "
+             "constructors, model-free oracle on every case")
